@@ -81,4 +81,12 @@ theorem plan_open_deletes_nothing :
         (Raven.Plan.idx (b!"call db.DBManager.initUserDB") (Raven.Plan.trace f))) = true := by
   decide
 
+/-- C07.11  every statement that creates a table or an index of a store is repeatable (`… IF NOT EXISTS`): `creation_restartable`
+completes an interrupted creation by running it again, which is sound only if no step fails the second time. -/
+theorem plan_creation_repeatable :
+    ((Raven.Plan.trace (b!"db.DBManager.initUserDB")).filter (fun e => Raven.GoStr.hasPrefix e (b!"sql CREATE"))).all
+      (fun e => e = (b!"sql CREATE TABLE IF") || e = (b!"sql CREATE INDEX IF") || e = (b!"sql CREATE UNIQUE INDEX")) = true ∧
+    10 ≤ ((Raven.Plan.trace (b!"db.DBManager.initUserDB")).filter (fun e => Raven.GoStr.hasPrefix e (b!"sql CREATE"))).length := by
+  decide
+
 end Raven.Props.C07
